@@ -2784,7 +2784,7 @@ class BscIoctl:
     result: str
 
     def __str__(self):
-        params = IOC_REQUEST_PARAMS[self.request & 0xf0000000]
+        params = IOC_REQUEST_PARAMS[self.request & 0xe0000000]
         group = chr((self.request >> 8) & 0xff)
         number = self.request & 0xff
         length = (self.request >> 16) & 0x1fff
